@@ -13,7 +13,7 @@ git -C /repo worktree add -q --detach $WT HEAD || exit 9
 mkdir -p $WT/_out && cp $DST/demo.py $WT/_out/
 cd $WT
 A=$(PYTHONPATH=$WT timeout 600 /venv/bin/python _out/demo.py >/dev/null 2>&1; echo $?)
-if ! git apply $DST/patch.diff 2>/tmp/seed_apply_err; then echo "PATCH DOES NOT APPLY"; cat /tmp/seed_apply_err; git -C /repo worktree remove --force $WT; exit 8; fi
+if ! git apply $DST/patch.diff 2>/tmp/seed_apply_err && ! git apply --3way $DST/patch.diff 2>>/tmp/seed_apply_err; then echo "PATCH DOES NOT APPLY"; cat /tmp/seed_apply_err; git -C /repo worktree remove --force $WT; exit 8; fi
 B=$(PYTHONPATH=$WT timeout 600 /venv/bin/python _out/demo.py >/dev/null 2>&1; echo $?)
 T=$(PYTHONPATH=$WT /venv/bin/python -m pytest -q -p no:cacheprovider 2>&1 | tail -1)
 echo "seed $ID: demo clean exit=$A, demo patched exit=$B, suite patched: $T"
